@@ -303,6 +303,8 @@ def structural_mutants(rng):
 
 def textual_mutant(text, rng):
     b = text
+    if len(b) < 2:
+        return b + rng.choice(["(", ")", "x", " "])      # (a second mutation of an already truncated text)
     k = rng.random()
     i = rng.randrange(len(b))
     if k < 0.25:
@@ -428,7 +430,7 @@ def work_refusal(bins, seed, n):
 
 def run(ctx):
     quick = ctx.tier == "quick"
-    per = 70 if quick else 1800
+    per = 70 if quick else 4000
     for r in core.pmap(work_emit, [(ctx.bins, "%s/%d/e%d" % (ctx.prop, ctx.seed, i), per) for i in range(32)]):
         ctx.merge_counts(r["st"])
         ctx.evaluations += r["st"]["emit_runs"] + r["st"]["piped_renderings"] * 2
@@ -437,7 +439,7 @@ def run(ctx):
             ctx.refute(sig, why, case)
         for s in r["samples"][:1]:
             ctx.sample(s, cap=3)
-    pm = 180 if quick else 3000
+    pm = 180 if quick else 7000
     for r in core.pmap(work_refusal, [(ctx.bins, "%s/%d/r%d" % (ctx.prop, ctx.seed, i), pm) for i in range(32)]):
         ctx.merge_counts(r["st"])
         ctx.evaluations += r["st"]["structural_mutants"] + r["st"]["textual_mutants"]
